@@ -25,7 +25,7 @@ def tag_names(level, n):
     return ['%s.tag%d' % (level, i) for i in range(n)]
 
 
-def tag_predicate_obligation(chk, body, name, literal, negate, arg_order, closure_self, max_tags=None, confirm=None):
+def tag_predicate_obligation(chk, body, name, literal, negate, arg_order, closure_self, max_tags=None, confirm=None, to_bool=None):
     """body(feature, rule?, scenario) must equal (negated) 'some inherited tag equals `literal`'."""
     max_tags = max_tags if max_tags is not None else (2 if chk.tier == 'thorough' else 1)
     o = chk.add(Obligation(name, 'tag vectors of length 0..%d on scenario, rule (present or absent) and feature; tag contents symbolic' % max_tags))
@@ -62,6 +62,8 @@ def tag_predicate_obligation(chk, body, name, literal, negate, arg_order, closur
             hit = z3.Or(*[z3.Bool('%s==%s' % (t, '"%s"' % literal)) for t in tags]) if tags else z3.BoolVal(False)
             want = z3.Not(hit) if negate else hit
             o.queries += 1
+            if to_bool is not None:
+                res = to_bool(ex_, res)
             if ex_.check(res != want):
                 if o.verdict != 'violated':
                     o.verdict = 'violated'
